@@ -4,6 +4,7 @@ from collections import OrderedDict
 from rules.common import *  # noqa: F401,F403
 from rules.storefacts import field_of
 from rules.c13 import chase_mentions
+from rules import roles
 
 LEVEL_TEXT = (
     "Structural necessary conditions only — the numeric bound itself is NOT decided: R1 every store through the policy is "
@@ -29,7 +30,7 @@ def policy_paths(ctx, meth, args, opaque_helpers=True, loop_bound=1):
         b = f.one(meth)
 
         def pol(body, a):
-            if opaque_helpers and body.path in (RP + "::incr_mem_usage",):
+            if opaque_helpers and body.path == roles.get(ctx).policy_sweep().path and body.path != b.path:
                 return "opaque"
             return "inline"
 
@@ -73,37 +74,43 @@ def record_measure(ctx):
 
 
 def r1(ctx):
-    rep = Report("C14.R1", "policy set: incr_mem_usage(record.len()) on every path, before the inner set", floor=3)
-    b, paths, I = policy_paths(ctx, rp("set"), ["self", "key", "record"])
+    rep = Report("C14.R1", "policy set: the record's size is added to the usage (and the sweep runs) on every path, before the inner set", floor=3)
+    R = roles.get(ctx)
+    usage = F(P("self"), R.rp_usage)
+    b, paths, I = policy_paths(ctx, rp("set"), ["self", "key", "record"], opaque_helpers=False)
     rep.analysed(b)
     rep.check(bool(paths), "set:paths", "%d paths" % len(paths), "cannot evaluate RandomPolicy::set", b.loc())
     for p in paths:
-        evs = [e for e in p.events if e.kind == "call" and (e.name == RP + "::incr_mem_usage" or e.name.startswith(CACHE + "::"))]
-        names = [e.name.split("::")[-1] for e in evs]
-        ok_order = names == ["incr_mem_usage", "set"]
-        rep.check(ok_order, "set:account-then-store", "incr_mem_usage, then inner set", "RandomPolicy::set performs %s: the new record must be accounted (and the sweep run) before it is written, otherwise the sweep can evict the record being written or the usage lags behind the content" % names, b.loc())
+        if p.cut:
+            continue  # a further round of the sweep: the first round already shows the order
+        calls = [e for e in p.events if e.kind == "call"]
+        adds = [k for k, e in enumerate(calls) if e.name.endswith("fetch_add") and tform(e.args[0]) == usage]
+        sets = [k for k, e in enumerate(calls) if e.name == CACHE + "::set"]
+        rms = [k for k, e in enumerate(calls) if e.name.startswith(CACHE + "::") and e.name.split("::")[-1] in ("remove_if", "remove", "delete")]
+        inner = [e.name.split("::")[-1] for e in calls if e.name.startswith(CACHE + "::")]
+        ok_order = len(sets) == 1 and len(adds) >= 1 and adds[0] < sets[0] and all(k < sets[0] for k in rms) and all(k < sets[0] for k in adds)
+        rep.check(ok_order, "set:account-then-store", "usage += size (and the sweep), then the inner set", "RandomPolicy::set performs %s with %d additions to the usage: the new record must be accounted (and the sweep run) before it is written, otherwise the sweep can evict the record being written or the usage lags behind the content" % (inner, len(adds)), b.loc())
         if ok_order:
-            arg = evs[0].args[1]
-            a = atoms(arg)
-            ok_arg = ("len", F(P("record"), "value")) in a or any(isinstance(x, tuple) and x[0] == "call" and (x[1].endswith("Record::len") or (x[1].endswith("Bytes::len") and x[3] == (F(P("record"), "value"),))) for x in a)
+            arg = calls[adds[0]].args[1]
             ref = record_measure(ctx)
             m = size_measure(arg)
-            ok_arg = ok_arg and ref is not None and m is not None and m[:2] == ref and m[2] == P("record")
+            ok_arg = len(adds) == 1 and ref is not None and m is not None and m[:2] == ref and m[2] == P("record")
             rep.check(ok_arg, "set:accounts-record-size", "accounted size = Record::len(record) = %s" % (ref,), "RandomPolicy::set accounts %s, not Record::len() of the record being stored (%s as coefficient/constant of the value length): what is added differs from what the removing paths subtract and from the stored size, so the usage drifts from the content" % (short(arg, 80), ref), b.loc())
-            s = evs[1]
-            rep.check(tform(s.args[1]) == P("key") and tform(s.args[2]) == P("record") and tform(p.ret) == s.result, "set:forwards", "inner set(key, record), result returned", "RandomPolicy::set does not forward its key/record to the inner store or drops the result", b.loc())
+            s_ = calls[sets[0]]
+            rep.check(tform(s_.args[1]) == P("key") and tform(s_.args[2]) == P("record") and tform(p.ret) == s_.result, "set:forwards", "inner set(key, record), result returned", "RandomPolicy::set does not forward its key/record to the inner store or drops the result", b.loc())
     return rep
 
 
 def r2(ctx):
     rep = Report("C14.R2", "sweep shape: enter on usage > limit; exit on empty store before drawing a victim; remove via the inner store; subtract each removed record's size", floor=5)
     f = ctx.facts
-    b = f.one(RP + "::incr_mem_usage")
+    R = roles.get(ctx)
+    b = R.policy_sweep()
     rep.analysed(b)
     I = Interp(f, loop_bound=1)
-    paths = I.run(b, [P("self"), P("value")])
+    paths = I.run(b, [P(b.local_name(i) or "a%d" % i) for i in b.arg_locals()])
     rep.evaluations += len(paths)
-    limit = F(P("self"), "memory_limit")
+    limit = F(P("self"), R.rp_limit)
     n_under = n_empty = n_sweep = 0
     for p in paths:
         calls = [e for e in p.events if e.kind == "call"]
@@ -140,7 +147,7 @@ def r2(ctx):
         nonempty = any("len" in repr(c) and isinstance(c, tuple) and c[0] == "cmp" and ((c[1] == "Eq" and not truth) or (c[1] == "Ne" and truth)) for c, truth, _s, _at in p.state.pc)
         rep.check(ok and nonempty, "sweep[usage>limit,non-empty]:order", "len() != 0 established, then gen_range(0..len), then remove_if", "the victim index is drawn without the empty-store exit in front of it (gen_range(0..0) panics) or the removal does not follow", b.loc())
         rm = calls[ri]
-        rep.check(tform(rm.args[0]) == ("deref", F(P("self"), "store")), "sweep:removes-through-inner-store", "victim removed through the inner store", "the sweep removes through %s" % short(rm.args[0], 60), b.loc())
+        rep.check(tform(rm.args[0]) == ("deref", F(P("self"), R.rp_store)), "sweep:removes-through-inner-store", "victim removed through the inner store", "the sweep removes through %s" % short(rm.args[0], 60), b.loc())
         g = calls[gi]
         rng = g.args[1] if len(g.args) > 1 else None
         okr = isinstance(rng, Struct) and rng.get("start") == 0 and any(isinstance(x, tuple) and x[0] == "call" and x[1].endswith("::len") for x in atoms(rng.get("end")))
@@ -153,7 +160,7 @@ def r2(ctx):
             rep.check(oks, "sweep:subtracts-removed-size", "usage -= len(removed record)", "the sweep does not subtract the size of each removed record (%d subtractions)" % len(subs), b.loc())
     rep.check(n_under > 0 and n_empty > 0 and n_sweep > 0, "sweep:cases", "paths: under limit / empty store / eviction", "the sweep lacks one of the cases under-limit/empty-store/eviction (%d/%d/%d)" % (n_under, n_empty, n_sweep), b.loc())
     # it is a loop
-    rep.check(bool(b.has_cycle()), "sweep:is-loop", "eviction repeats until usage <= limit", "incr_mem_usage contains no loop: one eviction per store cannot restore the limit", b.loc())
+    rep.check(bool(b.has_cycle()), "sweep:is-loop", "eviction repeats until usage <= limit", "the eviction code contains no loop: one eviction per store cannot restore the limit", b.loc())
     return rep
 
 
@@ -164,71 +171,77 @@ REMOVERS_RET = ("delete", "remove", "remove_if")
 def r3(ctx):
     rep = Report("C14.R3", "never under-counting: inner set always preceded by the addition; subtractions only of sizes of removed records (or the empty-store reset)", floor=4)
     f = ctx.facts
+    R = roles.get(ctx)
+    usage = F(P("self"), R.rp_usage)
+    sweep = R.policy_sweep()
     methods = [b for b in f.bodies.values() if b.impl_self == RP and b.kind == "assoc_fn"]
     rep.check(len(methods) >= 12, "policy-methods", "%d RandomPolicy methods" % len(methods), "only %d RandomPolicy methods found (14 confirmed; 12 are required by the Cache traits)" % len(methods))
     for b in methods:
-        if b.impl_trait is None and b.name != "incr_mem_usage":
-            continue  # inherent helpers (decr_mem_usage, ...) are inlined into the trait methods that use them
+        if b.impl_trait is None and b.path != sweep.path:
+            continue  # inherent helpers are inlined into the trait methods that use them
         argn = [b.local_name(i) or "a%d" % i for i in b.arg_locals()]
+        label = "sweep" if b.path == sweep.path else b.name
         I = Interp(f, loop_bound=1)
         paths = I.run(b, [P(n) for n in argn])
         rep.analysed(b)
         for p in paths:
             calls = [e for e in p.events if e.kind == "call"]
-            adds = [i for i, e in enumerate(calls) if e.name.endswith("fetch_add") and tform(e.args[0]) == F(P("self"), "memory_usage")]
+            adds = [i for i, e in enumerate(calls) if e.name.endswith("fetch_add") and tform(e.args[0]) == usage]
             for i, e in enumerate(calls):
                 if e.name == CACHE + "::set":
-                    rep.check(any(j < i for j in adds), "%s:set-preceded-by-add" % b.name, "inner set preceded by usage += size", "RandomPolicy::%s writes to the inner store without accounting the record first: stored bytes can exceed what the sweep sees" % b.name, b.loc())
-                if e.args and tform(e.args[0]) == F(P("self"), "memory_usage") and e.name.split("::")[-1] in ("store", "swap", "fetch_and", "fetch_min", "fetch_update", "compare_exchange", "fetch_nand", "fetch_or", "fetch_xor"):
+                    rep.check(any(j < i for j in adds), "%s:set-preceded-by-add" % label, "inner set preceded by usage += size", "RandomPolicy::%s writes to the inner store without accounting the record first: stored bytes can exceed what the sweep sees" % label, b.loc())
+                if e.args and tform(e.args[0]) == usage and e.name.split("::")[-1] in ("store", "swap", "fetch_and", "fetch_min", "fetch_update", "compare_exchange", "fetch_nand", "fetch_or", "fetch_xor"):
                     # overwriting the counter is never atomic with the content: a set on another connection may already be
                     # accounted but not yet inserted (or the reverse), even if this path has just seen the store empty
-                    rep.bad("%s:usage-overwritten" % b.name, "RandomPolicy::%s overwrites the usage counter (%s): the counter is no longer the sum of what was added and removed — a store that is accounted but not yet written (or items that a delayed flush has not removed) are forgotten, and the limit is exceeded / the counter wraps" % (b.name, e.name.split("::")[-1]), b.loc())
-                if e.name.endswith("fetch_sub") and tform(e.args[0]) == F(P("self"), "memory_usage"):
+                    rep.bad("%s:usage-overwritten" % label, "RandomPolicy::%s overwrites the usage counter (%s): the counter is no longer the sum of what was added and removed — a store that is accounted but not yet written (or items that a delayed flush has not removed) are forgotten, and the limit is exceeded / the counter wraps" % (label, e.name.split("::")[-1]), b.loc())
+                if e.name.endswith("fetch_sub") and tform(e.args[0]) == usage:
                     arg = e.args[1]
                     a = atoms(arg)
                     from_removed = any(isinstance(x, tuple) and x[0] == "call" and x[1].startswith(CACHE + "::") and x[1].split("::")[-1] in REMOVERS_RET for x in a) or any(isinstance(x, tuple) and x[0] == "cbarg" for x in a)
                     is_len = any((isinstance(x, tuple) and x[0] == "len") or (isinstance(x, tuple) and x[0] == "call" and x[1].endswith("::len")) for x in a)
                     reset = any(isinstance(x, tuple) and x[0] == "call" and x[1].endswith("fetch_add") for x in a) or any(isinstance(x, tuple) and x[0] == "call" and x[1].endswith("::load") for x in a)
                     okk = (from_removed and is_len) or reset
-                    rep.check(okk, "%s:subtraction-source" % b.name, "usage -= size of a removed record / reset", "RandomPolicy::%s subtracts %s from the usage, which is not the size of a record returned by a removing call: usage can drop below the stored bytes and the limit is then exceeded" % (b.name, short(arg, 80)), b.loc())
+                    rep.check(okk, "%s:subtraction-source" % label, "usage -= size of a removed record / reset", "RandomPolicy::%s subtracts %s from the usage, which is not the size of a record returned by a removing call: usage can drop below the stored bytes and the limit is then exceeded" % (label, short(arg, 80)), b.loc())
     return rep
 
 
 def r4(ctx):
-    rep = Report("C14.R4", "wiring: Random -> RandomPolicy::new(the MemoryStore, config.memory_limit); None -> the MemoryStore; CLI memory_limit/eviction_policy reach the store config", floor=4)
+    rep = Report("C14.R4", "wiring: Random -> RandomPolicy::new(the MemoryStore, the configured limit); None -> the MemoryStore; CLI memory_limit/eviction_policy reach the store config", floor=4)
     f = ctx.facts
+    R = roles.get(ctx)
     b = f.one("memcrs::memcache::builder::MemcacheStoreBuilder::from_config")
     rep.analysed(b)
     ep = "memcrs::memcache::eviction_policy::EvictionPolicy"
+    cb = f.one("memcrs::memcache::builder::MemcacheStoreConfig::new")
     for vi, v in enumerate(f.adts[ep]["variants"]):
-        cfg = Struct(None, None, 0, OrderedDict([("policy", Struct(ep, v["name"], vi, OrderedDict()))]), P("config"))
-        paths = Interp(f).run(b, [cfg, P("timer")])
-        for p in paths:
-            ret = tform(p.ret)
-            a = atoms(ret)
-            has_policy = any(isinstance(x, tuple) and x[0] == "struct" and x[1] == RP for x in a)
-            has_store = any(isinstance(x, tuple) and x[0] == "struct" and x[1] == MS for x in a)
-            if v["name"] == "Random":
-                lim = None
+        # the config value is what the public constructor builds from (limit, policy): no private field is named here
+        cfgs = [p.ret for p in Interp(f).run(cb, [P("memory_limit"), Struct(ep, v["name"], vi, OrderedDict())])]
+        rep.check(len(cfgs) == 1, "MemcacheStoreConfig::new[%s]" % v["name"], "one config value", "MemcacheStoreConfig::new has %d outcomes" % len(cfgs), cb.loc())
+        for cfg in cfgs:
+            for p in Interp(f).run(b, [cfg, P("timer")]):
+                ret = tform(p.ret)
+                a = atoms(ret)
+                has_policy = any(isinstance(x, tuple) and x[0] == "struct" and x[1] == RP for x in a)
+                has_store = any(isinstance(x, tuple) and x[0] == "struct" and x[1] == MS for x in a)
+                if v["name"] == "Random":
+                    lim = None
+                    inner_store = False
+                    for x in a:
+                        if isinstance(x, tuple) and x[0] == "struct" and x[1] == RP:
+                            d = dict(x[3])
+                            lim = d.get(R.rp_limit)
+                            inner_store = any(isinstance(y, tuple) and y[0] == "struct" and y[1] == MS for y in atoms(d.get(R.rp_store)))
+                    rep.check(has_policy and lim == P("memory_limit") and inner_store, "from_config[Random]", "RandomPolicy{the MemoryStore, limit = the configured memory limit}", "eviction policy 'random' builds %s (must wrap the MemoryStore with the configured memory limit)" % short(p.ret, 120), b.loc())
+                else:
+                    rep.check(has_store and not has_policy, "from_config[%s]" % v["name"], "the MemoryStore itself", "eviction policy '%s' builds %s (must be the plain MemoryStore: nothing may evict)" % (v["name"], short(p.ret, 120)), b.loc())
+                ms_timer = None
                 for x in a:
-                    if isinstance(x, tuple) and x[0] == "struct" and x[1] == RP:
-                        d = dict(x[3])
-                        lim = d.get("memory_limit")
-                        inner_store = any(isinstance(y, tuple) and y[0] == "struct" and y[1] == MS for y in atoms(d.get("store")))
-                rep.check(has_policy and lim == F(P("config"), "memory_limit") and inner_store, "from_config[Random]", "RandomPolicy{store: the MemoryStore, memory_limit: config.memory_limit}", "eviction policy 'random' builds %s (must wrap the MemoryStore with the configured memory limit)" % short(p.ret, 120), b.loc())
-            else:
-                rep.check(has_store and not has_policy, "from_config[%s]" % v["name"], "the MemoryStore itself", "eviction policy '%s' builds %s (must be the plain MemoryStore: nothing may evict)" % (v["name"], short(p.ret, 120)), b.loc())
-            ms_timer = None
-            for x in a:
-                if isinstance(x, tuple) and x[0] == "struct" and x[1] == MS:
-                    ms_timer = dict(x[3]).get("timer")
-            rep.check(ms_timer == P("timer"), "from_config[%s]:timer" % v["name"], "MemoryStore.timer <- the given timer", "the store is built with timer %s, not the one passed in" % short(ms_timer, 60), b.loc())
+                    if isinstance(x, tuple) and x[0] == "struct" and x[1] == MS:
+                        ms_timer = dict(x[3]).get(R.ms_timer)
+                rep.check(ms_timer == P("timer"), "from_config[%s]:timer" % v["name"], "MemoryStore's timer <- the given timer", "the store is built with timer %s, not the one passed in" % short(ms_timer, 60), b.loc())
     nb = f.one(RP + "::new")
     for p in Interp(f).run(nb, [P("store"), P("memory_limit")]):
-        rep.check(field_of(p.ret, "store") == P("store") and field_of(p.ret, "memory_limit") == P("memory_limit") and 0 in [x[3][0] if isinstance(x, tuple) and x[0] == "call" and x[3] else None for x in atoms(field_of(p.ret, "memory_usage"))], "RandomPolicy::new", "store, limit, usage 0", "RandomPolicy::new builds %s" % short(p.ret, 120), nb.loc())
-    cb = f.one("memcrs::memcache::builder::MemcacheStoreConfig::new")
-    for p in Interp(f).run(cb, [P("memory_limit"), P("policy")]):
-        rep.check(field_of(p.ret, "memory_limit") == P("memory_limit") and field_of(p.ret, "policy") == P("policy"), "MemcacheStoreConfig::new", "fields <- arguments", "MemcacheStoreConfig::new builds %s" % short(p.ret, 100), cb.loc())
+        rep.check(field_of(p.ret, R.rp_store) == P("store") and field_of(p.ret, R.rp_limit) == P("memory_limit") and 0 in [x[3][0] if isinstance(x, tuple) and x[0] == "call" and x[3] else None for x in atoms(field_of(p.ret, R.rp_usage))], "RandomPolicy::new", "store, limit, usage 0", "RandomPolicy::new builds %s" % short(p.ret, 120), nb.loc())
     sb = f.one("memcrs::memcache_server::runtime_builder::create_memcrs_server")
     for bb, t in sb.calls():
         if (t.callee.path or "").endswith("MemcacheStoreConfig::new"):
